@@ -1,7 +1,7 @@
 """C07 — input, output and transfer reach exactly the designated parties.
 
 Proof: coq/props/C07.v over coq/theories/Routing.v (routing functions of transfer / _distribute /
-output for all m, thresholds, receiver lists, graphs; recombination at every receiver via C12).
+output for all m, thresholds, receiver lists, graphs; recombination at every receiver via C12's interpolation theorem).
 Tie: the real runtime runs in the m-party simulator on every sender/receiver subset and graph
 (m <= 4 exhaustive, larger m sampled); per operation the parties' results are checked against an
 independent oracle (the property itself) and the ME.send/receive log of every party is compared
